@@ -15,7 +15,7 @@ Abstract document (JSON-able dict):
          | {"k":"proof","type":str} | {"k":"hl","rid":str|null,"anchor":str|null,"runs":[Run]} | {"k":"o","xml":str}
   InsChild = {"k":"r","run":Run} | {"k":"cs","id"} | {"k":"ce","id"} | {"k":"o","xml":str}
   Run    = {"b":null|str,"i":null|str,"rest":str,"ch":[Atom]}       b/i: null = absent, "" = present without w:val, else the w:val
-  Atom   = {"k":"t","s":str} | {"k":"dt","s":str} | {"k":"tab"} | {"k":"br"} | {"k":"cr"} | {"k":"cref","id":str}
+  Atom   = {"k":"t","s":str} | {"k":"dt","s":str} | {"k":"tab"} | {"k":"br"[,"type":str]} | {"k":"cr"} | {"k":"cref","id":str}
          | {"k":"fld","type":"begin|separate|end"} | {"k":"instr","s":str} | {"k":"o","xml":str}
   Comment= {"id":str,"author":str|null,"date":str|null,"initials":str|null,"paras":[{"para_id":str|null,"text":[str]}],
             "legacy_parent":str|null,"done_attr":str|null}
@@ -90,6 +90,8 @@ def w_atom(a):
         return w_text("t", a["s"])
     if k == "dt":
         return w_text("delText", a["s"])
+    if k == "br" and a.get("type") is not None:
+        return f'<w:br w:type="{esca(a["type"])}"/>'
     if k in ("tab", "br", "cr"):
         return f"<w:{k}/>"
     if k == "nbh":
@@ -370,6 +372,9 @@ def r_run(r) -> dict:
             ch.append({"k": "dt", "s": c.text or ""})
         elif t in (q("w:tab"), q("w:br"), q("w:cr")) and len(c.attrib) == 0:
             ch.append({"k": etree.QName(c).localname})
+        elif t == q("w:br") and list(c.attrib) == [q("w:type")]:
+            # a typed break (page / column / textWrapping): text-wise a line break like the untyped one
+            ch.append({"k": "br", "type": c.get(q("w:type"))})
         elif t == q("w:noBreakHyphen") and len(c.attrib) == 0:
             ch.append({"k": "nbh"})
         elif t == q("w:commentReference"):
